@@ -204,6 +204,7 @@ func (in *Interp) reset(prefix []int) {
 	in.quotedOf = map[string]Term{}
 	in.rtypes = nil
 	in.ordTerms = nil
+	in.blobStrs = nil
 	in.lockCount = map[*Value]int{}
 }
 
